@@ -1,13 +1,209 @@
-"""AST probes of the equal-length routing/scheduling family (TSP, ATSP, PDP, SMTWTP): the comparison that
-decides `done` in each `_step`.  The Lean models take the operator as a parameter; the theorems
-`run_length` / `feasible_of_run` need "no node available ⇔ done" and stop compiling otherwise."""
+"""AST probes of the equal-length routing/scheduling family (TSP, ATSP, PDP, SMTWTP).
+
+Every value extracted here is a parameter of the Lean models (`Rl4co/Env/{Tsp,Atsp,Pdp,Smtwtp}.lean`) and is
+needed at its committed value by a proof (see `Rl4co/Proofs/TspfamParams.lean`): a one-token edit of the
+source changes the generated `Params.lean` and the proof obligation stops compiling.  Patterns are matched by
+statement shape inside the named function; a rewrite that no longer matches is a `pattern-miss` (default
+used, never an alarm)."""
+import ast
+
+T = "rl4co/envs/routing/tsp/env.py"
+A = "rl4co/envs/routing/atsp/env.py"
+P = "rl4co/envs/routing/pdp/env.py"
+S = "rl4co/envs/scheduling/smtwtp/env.py"
+O = "rl4co/utils/ops.py"
+
+
+def _fn(ex, rel, func):
+    tree = ex.parse(rel)
+    return ex.find_function(tree, func) if tree else None
+
+
+def _int(node):
+    """integer literal, possibly negated"""
+    if isinstance(node, ast.Constant) and isinstance(node.value, int) and not isinstance(node.value, bool):
+        return node.value
+    if isinstance(node, ast.UnaryOp) and isinstance(node.op, ast.USub):
+        v = _int(node.operand)
+        return None if v is None else -v
+    return None
+
+
+def roll_shift(ex, rel, func, first_arg):
+    """the shift `k` of the single call `torch.roll(<first_arg>, k, dims=…)` inside `func`"""
+    def run():
+        fn = _fn(ex, rel, func)
+        if fn is None:
+            return None
+        hits = []
+        for n in ast.walk(fn):
+            if isinstance(n, ast.Call) and ex.norm(n.func) == "torch.roll" and len(n.args) >= 2 and ex.norm(n.args[0]) == first_arg:
+                k = _int(n.args[1])
+                if k is not None:
+                    hits.append(k)
+        return f"({hits[0]})" if len(hits) == 1 else None
+    return run
+
+
+def roll_has_dims(ex, rel, func, first_arg, dims_ok):
+    """`true` iff that roll call names the step dimension (`dims=` one of dims_ok): without it torch rolls the
+    flattened tensor, i.e. across batch rows"""
+    def run():
+        fn = _fn(ex, rel, func)
+        if fn is None:
+            return None
+        for n in ast.walk(fn):
+            if isinstance(n, ast.Call) and ex.norm(n.func) == "torch.roll" and len(n.args) >= 2 and ex.norm(n.args[0]) == first_arg:
+                d = None
+                for kw in n.keywords:
+                    if kw.arg == "dims":
+                        d = _int(kw.value)
+                if len(n.args) >= 3:
+                    d = _int(n.args[2])
+                return "true" if d in dims_ok else "false"
+        return None
+    return run
+
+
+def pdp_pair_offset(ex):
+    """`new_to_deliver = (current_node + num_loc // d [+ c]) % (num_loc + m)`  →  (d, c, m)"""
+    def run():
+        fn = _fn(ex, P, "PDPEnv._step")
+        if fn is None:
+            return None
+        for n in ast.walk(fn):
+            if isinstance(n, ast.Assign) and len(n.targets) == 1 and ex.norm(n.targets[0]) == "new_to_deliver":
+                v = n.value
+                if not (isinstance(v, ast.BinOp) and isinstance(v.op, ast.Mod)):
+                    return None
+                l, r = v.left, v.right
+                if not (isinstance(r, ast.BinOp) and isinstance(r.op, ast.Add) and ex.norm(r.left) == "num_loc"):
+                    return None
+                m = _int(r.right)
+                c = 0
+                if isinstance(l, ast.BinOp) and isinstance(l.op, ast.Add) and _int(l.right) is not None \
+                        and isinstance(l.left, ast.BinOp) and isinstance(l.left.op, ast.Add):
+                    c = _int(l.right)
+                    l = l.left
+                if not (isinstance(l, ast.BinOp) and isinstance(l.op, ast.Add) and ex.norm(l.left) == "current_node"):
+                    return None
+                q = l.right
+                if not (isinstance(q, ast.BinOp) and isinstance(q.op, ast.FloorDiv) and ex.norm(q.left) == "num_loc"):
+                    return None
+                d = _int(q.right)
+                if d is None or m is None or d <= 0 or m < 0 or c < 0:
+                    return None
+                return f"({d}, {c}, {m})"
+        return None
+    return run
+
+
+def pdp_start_rule(ex):
+    """PDPEnv.select_start_nodes: `arange(num_starts).repeat_interleave(B) % num_possible_starts + lo` with
+    `num_possible_starts = (locs.shape[-2] - s) // d`  →  (lo, s, d)"""
+    def run():
+        fn = _fn(ex, P, "PDPEnv.select_start_nodes")
+        if fn is None:
+            return None
+        s = d = lo = None
+        for n in ast.walk(fn):
+            if isinstance(n, ast.Assign) and len(n.targets) == 1:
+                tgt = ex.norm(n.targets[0])
+                v = n.value
+                if tgt == "num_possible_starts" and isinstance(v, ast.BinOp) and isinstance(v.op, ast.FloorDiv):
+                    d = _int(v.right)
+                    if isinstance(v.left, ast.BinOp) and isinstance(v.left.op, ast.Sub) and ex.norm(v.left.left) == "td['locs'].shape[-2]":
+                        s = _int(v.left.right)
+                if tgt == "selected" and isinstance(v, ast.BinOp) and isinstance(v.op, ast.Add):
+                    if isinstance(v.left, ast.BinOp) and isinstance(v.left.op, ast.Mod) and ex.norm(v.left.right) == "num_possible_starts" \
+                            and "repeat_interleave(td.shape[0])" in ex.norm(v.left.left):
+                        lo = _int(v.right)
+        if None in (s, d, lo) or d <= 0 or s < 0 or lo < 0:
+            return None
+        return f"({lo}, {s}, {d})"
+    return run
+
+
+def pdp_reset_ones(ex):
+    """number of leading ones of `to_deliver` at reset: `num_loc // d + c`  →  (d, c)"""
+    def run():
+        fn = _fn(ex, P, "PDPEnv._reset")
+        if fn is None:
+            return None
+        for n in ast.walk(fn):
+            if isinstance(n, ast.Call) and ex.norm(n.func) == "torch.ones":
+                for a in n.args:
+                    if isinstance(a, ast.BinOp) and isinstance(a.op, ast.Add) and isinstance(a.left, ast.BinOp) \
+                            and isinstance(a.left.op, ast.FloorDiv) and ex.norm(a.left.left) == "self.generator.num_loc":
+                        d, c = _int(a.left.right), _int(a.right)
+                        if d and c is not None and c >= 0:
+                            return f"({d}, {c})"
+        return None
+    return run
+
+
+def smtwtp_clamp(ex):
+    """`job_tardiness[job_tardiness <op> c] = v`  →  the comparison operator (c and v must be 0)"""
+    def run():
+        fn = _fn(ex, S, "SMTWTPEnv._get_reward")
+        if fn is None:
+            return None
+        for n in ast.walk(fn):
+            if isinstance(n, ast.Assign) and len(n.targets) == 1 and isinstance(n.targets[0], ast.Subscript) \
+                    and ex.norm(n.targets[0].value) == "job_tardiness":
+                c = n.targets[0].slice
+                if isinstance(c, ast.Compare) and len(c.ops) == 1 and type(c.ops[0]) in ex.CMP \
+                        and ex.norm(c.left) == "job_tardiness" and _int(c.comparators[0]) == 0 and _int(n.value) == 0:
+                    return "." + ex.CMP[type(c.ops[0])]
+        return None
+    return run
+
+
+def smtwtp_shape(ex):
+    """(cumsum runs along the job axis `dim=1` of the gathered processing times,
+        tardiness is `presum - due` in this order, weighted tardiness is a product, summed over the last axis)"""
+    def run():
+        fn = _fn(ex, S, "SMTWTPEnv._get_reward")
+        if fn is None:
+            return None
+        cum = sub = None
+        for n in ast.walk(fn):
+            if isinstance(n, ast.Assign) and len(n.targets) == 1:
+                tgt, v = ex.norm(n.targets[0]), n.value
+                if tgt == "presum_process_time" and isinstance(v, ast.Call) and ex.norm(v.func) == "torch.cumsum":
+                    d = None
+                    for kw in v.keywords:
+                        if kw.arg == "dim":
+                            d = _int(kw.value)
+                    if len(v.args) >= 2:
+                        d = _int(v.args[1])
+                    cum = (len(v.args) >= 1 and ex.norm(v.args[0]) == "ordered_process_time" and d in (1, -1))
+                if tgt == "job_tardiness" and isinstance(v, ast.BinOp):
+                    sub = isinstance(v.op, ast.Sub) and ex.norm(v.left) == "presum_process_time" and ex.norm(v.right) == "ordered_due_time"
+        if cum is None or sub is None:
+            return None
+        return f"({'true' if cum else 'false'}, {'true' if sub else 'false'})"
+    return run
+
+
+def checker_cmp(ex, rel, func):
+    """operator of the `arange(...)…expand_as(actions) <op> actions.data.sort(1)[0]` test"""
+    def run():
+        fn = _fn(ex, rel, func)
+        if fn is None:
+            return None
+        hits = []
+        for n in ast.walk(fn):
+            if isinstance(n, ast.Compare) and len(n.ops) == 1 and type(n.ops[0]) in ex.CMP:
+                l, r = ex.norm(n.left), ex.norm(n.comparators[0])
+                if "torch.arange(actions.size(1)" in l and r == "actions.data.sort(1)[0]":
+                    hits.append(ex.CMP[type(n.ops[0])])
+        return "." + hits[0] if len(hits) == 1 else None
+    return run
 
 
 def register(ex):
-    T = "rl4co/envs/routing/tsp/env.py"
-    A = "rl4co/envs/routing/atsp/env.py"
-    P = "rl4co/envs/routing/pdp/env.py"
-    S = "rl4co/envs/scheduling/smtwtp/env.py"
+    # ---- done tests
     ex.probe("tspDoneCmp", "Cmp", ".eq", "tsp/env.py:TSPEnv._step  `torch.sum(available, dim=-1) == 0`",
              ex.cmp_probe(T, "TSPEnv._step", "torch.sum(available, dim=-1)", "0"))
     ex.probe("atspDoneCmp", "Cmp", ".le", "atsp/env.py:ATSPEnv._step  `torch.count_nonzero(available, dim=-1) <= 0`",
@@ -16,3 +212,45 @@ def register(ex):
              ex.cmp_probe(P, "PDPEnv._step", "torch.count_nonzero(available, dim=-1)", "0"))
     ex.probe("smtwtpDoneCmp", "Cmp", ".le", "smtwtp/env.py:SMTWTPEnv._step  `torch.count_nonzero(available, dim=-1) <= 0`",
              ex.cmp_probe(S, "SMTWTPEnv._step", "torch.count_nonzero(available, dim=-1)", "0"))
+    # ---- first-step tests (batch-global reads)
+    ex.probe("tspFirstStepCmp", "Cmp", ".eq", "tsp/env.py:TSPEnv._step  `td['i'].all() == 0`",
+             ex.cmp_probe(T, "TSPEnv._step", "td['i'].all()", "0"))
+    ex.probe("atspFirstStepCmp", "Cmp", ".eq", "atsp/env.py:ATSPEnv._step  `batch_to_scalar(td['i']) == 0`",
+             ex.cmp_probe(A, "ATSPEnv._step", "batch_to_scalar(td['i'])", "0"))
+    # ---- roll direction of the reward idiom
+    ex.probe("tourRollShift", "Int", "(-1)", "utils/ops.py:get_tour_length  the shift of `torch.roll(ordered_locs, -1, dims=-2)`",
+             roll_shift(ex, O, "get_tour_length", "ordered_locs"))
+    ex.probe("tourRollAlongSteps", "Bool", "true", "utils/ops.py:get_tour_length  that roll names the step dimension (`dims=-2`)",
+             roll_has_dims(ex, O, "get_tour_length", "ordered_locs", (-2, 1)))
+    ex.probe("atspRollShift", "Int", "(-1)", "atsp/env.py:ATSPEnv._get_reward  the shift of `torch.roll(actions, -1, dims=1)`",
+             roll_shift(ex, A, "ATSPEnv._get_reward", "actions"))
+    ex.probe("atspRollAlongSteps", "Bool", "true", "atsp/env.py:ATSPEnv._get_reward  that roll names the step dimension (`dims=1`)",
+             roll_has_dims(ex, A, "ATSPEnv._get_reward", "actions", (1, -1)))
+    # ---- PDP index expressions
+    ex.probe("pdpPairOffset", "Nat × Nat × Nat", "(2, 0, 1)",
+             "pdp/env.py:PDPEnv._step  `(current_node + num_loc // 2) % (num_loc + 1)`  as (divisor, extra addend, modulus addend)",
+             pdp_pair_offset(ex))
+    ex.probe("pdpResetOnes", "Nat × Nat", "(2, 1)", "pdp/env.py:PDPEnv._reset  `torch.ones(.., num_loc // 2 + 1)` leading ones of to_deliver",
+             pdp_reset_ones(ex))
+    ex.probe("pdpStartRule", "Nat × Nat × Nat", "(1, 1, 2)",
+             "pdp/env.py:PDPEnv.select_start_nodes  `arange(k).repeat_interleave(B) % ((locs.shape[-2] - 1) // 2) + 1` as (lo, sub, div)",
+             pdp_start_rule(ex))
+    # ---- checkers
+    ex.probe("tspCheckCmp", "Cmp", ".eq", "tsp/env.py:TSPEnv.check_solution_validity  `arange(width) == actions.sort(1)[0]`",
+             checker_cmp(ex, T, "TSPEnv.check_solution_validity"))
+    ex.probe("atspCheckCmp", "Cmp", ".eq", "atsp/env.py:ATSPEnv.check_solution_validity  `arange(width) == actions.sort(1)[0]`",
+             checker_cmp(ex, A, "ATSPEnv.check_solution_validity"))
+    ex.probe("pdpCheckPermCmp", "Cmp", ".eq", "pdp/env.py:PDPEnv.check_solution_validity  `arange(width) == actions.sort(1)[0]`",
+             checker_cmp(ex, P, "PDPEnv.check_solution_validity"))
+    ex.probe("pdpCheckDepotCmp", "Cmp", ".ne", "pdp/env.py:PDPEnv.check_solution_validity  `actions[:, 1:-1] != 0`",
+             ex.cmp_probe(P, "PDPEnv.check_solution_validity", "actions[:, 1:-1]", "0"))
+    ex.probe("pdpCheckPrecCmp", "Cmp", ".lt",
+             "pdp/env.py:PDPEnv.check_solution_validity  `visited_time[:, 1:L//2+1] < visited_time[:, L//2+1:]`",
+             ex.cmp_probe(P, "PDPEnv.check_solution_validity", "visited_time[:, 1:actions.size(1) // 2 + 1]",
+                          "visited_time[:, actions.size(1) // 2 + 1:]"))
+    # ---- SMTWTP reward pipeline
+    ex.probe("smtwtpClampCmp", "Cmp", ".lt", "smtwtp/env.py:SMTWTPEnv._get_reward  `job_tardiness[job_tardiness < 0] = 0`",
+             smtwtp_clamp(ex))
+    ex.probe("smtwtpRewardShape", "Bool × Bool", "(true, true)",
+             "smtwtp/env.py:SMTWTPEnv._get_reward  (cumsum of the gathered processing times along the job axis, tardiness = presum - due)",
+             smtwtp_shape(ex))
